@@ -24,26 +24,25 @@ Qed.
 Definition no_dsc : dsc := {| d_source := []; d_src := no_src |}.
 
 (* C19: when the pipeline returns an order of source names, every text was parsed, the names are those of a
-   permutation l of the input positions, and in l every source comes after the provider of each binary it picked
-   for the architecture from its three build-dependency fields; that provider's Binary field lists the binary *)
+   permutation l of the input positions, and in l every source comes after EVERY source whose Binary field lists a binary
+   it picked for the architecture from its three build-dependency fields *)
 Theorem C19_order_from_texts arch ts names : order_texts arch ts = OOrder names ->
   exists ds l, dscs_of_texts arch ts = Some ds /\ List.length ds = List.length ts /\
     names = map (fun i => d_source (nth i ds no_dsc)) l /\
     Permutation l (seq 0 (List.length ts)) /\
-    forall l1 i l2, l = l1 ++ i :: l2 -> forall b t, In b (picked (d_src (nth i ds no_dsc))) -> src_of (map d_src ds) b = Some t ->
-      In t l1 /\ In b (binaries (d_src (nth t ds no_dsc))).
+    forall l1 i l2, l = l1 ++ i :: l2 -> forall b t, In b (picked (d_src (nth i ds no_dsc))) ->
+      t < List.length ts -> In b (binaries (d_src (nth t ds no_dsc))) -> In t l1.
 Proof.
   unfold order_texts. destruct (dscs_of_texts arch ts) as [ds|] eqn:E; [|discriminate].
   destruct (order_dscs (map d_src ds)) as [l| |] eqn:O; try discriminate. intros H. inversion H; subst. clear H.
   exists ds, l. pose proof (dscs_length arch ts ds E) as Len.
   destruct (C19_order (map d_src ds) l O) as [P Ord]. rewrite map_length, Len in P.
   repeat split; auto.
-  - destruct (Ord l1 i l2 H b t) as [A _]; auto.
-    unfold nth_src. change no_src with (d_src no_dsc). now rewrite map_nth.
-  - destruct (Ord l1 i l2 H b t) as [_ B]; auto.
-    + unfold nth_src. change no_src with (d_src no_dsc). now rewrite map_nth.
-    + unfold nth_src in B. change no_src with (d_src no_dsc) in B. rewrite map_nth in B.
-      unfold builds in B. apply existsb_exists in B as (x&Hx&Ex). destruct (str_eqb_spec b x); [now subst|discriminate].
+  intros l1 i l2 El b t Hb Ht Hbin. apply (Ord l1 i l2 El b t).
+  - unfold nth_src. change no_src with (d_src no_dsc). now rewrite map_nth.
+  - rewrite map_length, Len. exact Ht.
+  - unfold nth_src. change no_src with (d_src no_dsc). rewrite map_nth. unfold builds. apply existsb_exists. exists b. split; [exact Hbin|].
+    destruct (str_eqb_spec b b); [reflexivity|congruence].
 Qed.
 (* a cycle among the parsed sources is reported as a cycle, and then no order of them satisfies the constraints *)
 Theorem C19_cycle_from_texts arch ts : order_texts arch ts = OCycle ->
